@@ -12,7 +12,15 @@ from concurrent.futures import ThreadPoolExecutor
 from vlib import common
 
 REF_EXTRA = ("-DVH_REF", "-lsnappy", "-llz4")
-NPROC = max(2, min(14, common.NCPU - 2))
+# VERIF_PAR=<k> caps TLC workers and harness processes (shared development box)
+PAR = int(os.environ.get("VERIF_PAR", "0") or 0)
+NPROC = PAR if PAR > 0 else max(2, min(14, common.NCPU - 2))
+
+
+def tlc_workers(w=None):
+    if PAR > 0:
+        return min(PAR, w) if w else PAR
+    return w
 
 
 # ---------------------------------------------------------------------------------------
@@ -63,15 +71,22 @@ def kv(tokens):
 # running
 # ---------------------------------------------------------------------------------------
 
-def run_parallel(binary, lines, nproc=None, per_case_timeout=30.0, leaks=True):
-    """Split `lines` over several harness processes. Returns (results, faults, leaky_ids)."""
+def run_parallel(binary, lines, nproc=None, per_case_timeout=30.0, leaks=True, costs=None, batch=400, cost_limit=6e8):
+    """Run `lines` through several harness processes (a pool of workers taking small batches, so
+    that common.run_harness's per-process time budget is never the limit).
+    `costs` (optional, parallel to lines) bounds the estimated work per batch.
+    Returns (results, faults, leaky_ids)."""
     lines = list(lines)
-    nproc = nproc or NPROC
-    if len(lines) < 64:
-        nproc = 1
-    # interleave so that expensive neighbours are spread over the workers
-    chunks = [lines[i::nproc] for i in range(nproc)]
-    chunks = [c for c in chunks if c]
+    nproc = min(nproc or NPROC, NPROC)
+    batches, cur, acc = [], [], 0.0
+    for i, ln in enumerate(lines):
+        cur.append(ln)
+        acc += costs[i] if costs else 0
+        if len(cur) >= batch or acc >= cost_limit:
+            batches.append(cur)
+            cur, acc = [], 0.0
+    if cur:
+        batches.append(cur)
     results, faults, leaky = {}, [], []
 
     def work(chunk):
@@ -80,8 +95,10 @@ def run_parallel(binary, lines, nproc=None, per_case_timeout=30.0, leaks=True):
         r, f = common.run_harness(binary, chunk, per_case_timeout=per_case_timeout)
         return r, f, []
 
-    with ThreadPoolExecutor(max_workers=len(chunks) or 1) as ex:
-        for r, f, l in ex.map(work, chunks):
+    if not batches:
+        return results, faults, leaky
+    with ThreadPoolExecutor(max_workers=min(nproc, len(batches))) as ex:
+        for r, f, l in ex.map(work, batches):
             results.update(r)
             faults.extend(f)
             leaky.extend(l)
@@ -91,7 +108,7 @@ def run_parallel(binary, lines, nproc=None, per_case_timeout=30.0, leaks=True):
 def tlc_gen(module, constants, inv="EmitInv", what=None, timeout=1500, env=None, workers=None, simulate=None, depth=None):
     """Run a generator/validator spec with constants given as cfg text; InfraError unless clean."""
     cfgt = "CONSTANTS\n%s\nINIT Init\nNEXT Next\nINVARIANT %s\nCHECK_DEADLOCK FALSE\n" % (constants, inv)
-    r = common.run_tlc(module, constants_text=cfgt, timeout=timeout, env=env, workers=workers,
+    r = common.run_tlc(module, constants_text=cfgt, timeout=timeout, env=env, workers=tlc_workers(workers),
                        simulate=simulate, depth=depth)
     if r.violated:
         # the invariants of the generators are self-consistency checks of the specification
@@ -114,27 +131,50 @@ def write_ndjson(objs):
     return path
 
 
-def selfcheck(chk, tier):
-    """Spec self-checks (no implementation involved). An error is an InfraError."""
-    n = 0
-    for mod, consts in (("MC_SnappySelf", "MaxToks = %d" % (2 if tier == "quick" else 3)),
-                        ("MC_Lz4Self", "MaxSeqs = %d" % (2 if tier == "quick" else 3))):
-        invs = {"MC_SnappySelf": "RoundTrip DecodeLaw PrefixLaw Fixed",
-                "MC_Lz4Self": "RoundTrip DecodeLaw TruncLaw Fixed"}[mod]
+def parallel(jobs, max_workers=8):
+    """jobs: {name: thunk}. Runs them in threads; returns {name: result}; first exception propagates."""
+    out = {}
+    with ThreadPoolExecutor(max_workers=max_workers) as ex:
+        futs = {name: ex.submit(fn) for name, fn in jobs.items()}
+        for name, fu in futs.items():
+            out[name] = fu.result()
+    return out
+
+
+def selfcheck_run(tier, workers=None):
+    """Spec self-checks (no implementation involved). An error is an InfraError. Returns TlcResults."""
+    def one(mod, consts, invs):
         cfgt = "CONSTANTS\n%s\nINIT Init\nNEXT Next\nINVARIANTS %s\nCHECK_DEADLOCK FALSE\n" % (consts, invs)
-        r = common.run_tlc(mod, constants_text=cfgt, want_cases=False, timeout=900)
+        r = common.run_tlc(mod, constants_text=cfgt, want_cases=False, timeout=900, workers=tlc_workers(workers))
         if r.violated or r.rc != 0 or r.error:
             raise common.InfraError("%s failed (spec error, not an alarm): %s\n%s" % (mod, r.violated or r.error, _tail(r.out)))
+        return r
+    res = parallel({
+        "snappy": lambda: one("MC_SnappySelf", "MaxToks = %d" % (2 if tier == "quick" else 3), "RoundTrip DecodeLaw PrefixLaw Fixed"),
+        "lz4": lambda: one("MC_Lz4Self", "MaxSeqs = %d" % (2 if tier == "quick" else 3), "RoundTrip DecodeLaw TruncLaw Fixed")})
+    return [res["snappy"], res["lz4"]]
+
+
+def selfcheck(chk, tier):
+    rs = selfcheck_run(tier)
+    for r in rs:
         chk.add_tlc(r)
-        n += r.distinct
-    chk.part("spec-selfcheck", states=n)
-    return n
+    chk.part("spec-selfcheck", states=sum(r.distinct for r in rs))
+    return rs
 
 
 def fault_sig(prefix, f, last_byte=None):
-    """Specific signature for a sanitizer / crash / hang fault."""
-    if prefix.startswith("snappy") and f.kind == "heap-buffer-overflow" and "carquet_snappy_decompress" in f.detail \
-            and last_byte is not None and (last_byte & 3) == 1:
-        return "snappy-dec:copy1-offset-oob-read"
+    """Specific signature for a sanitizer / crash / hang fault. The faulting *statement* names the
+    defect where it is recognisable (robust against line shifts), else sanitizer kind + function."""
     det = f.detail.split("@")[0]
+    src = ""
+    if "@" in f.detail and ":" in f.detail:
+        fname, _, line = f.detail.split("@")[1].partition(":")
+        for root, _, files in os.walk(os.path.join(common.REPO, "src")):
+            if fname in files and line.isdigit():
+                import linecache
+                src = linecache.getline(os.path.join(root, fname), int(line))
+                break
+    if f.kind == "heap-buffer-overflow" and det == "carquet_snappy_decompress" and "tag >> 5" in src:
+        return "snappy-dec:copy1-offset-oob-read"
     return "%s:%s:%s" % (prefix, f.kind, det)
